@@ -158,15 +158,19 @@ def check(report: Report, repo: Repo) -> None:
     except Unsupported as ex:
         report.add("R1-producer", f"{PA}::has_parameter_data", None, f"outside fragment: {ex}")
 
-    # ---- R4 transforms
-    mod = repo.module(TU)
-    at = mod.need("apply_transform")
-    assigns = [n for n in ast.walk(at) if isinstance(n, ast.Assign) and any(isinstance(t, ast.Name) and t.id == "module" for t in n.targets)]
-    first_stmt = next((s for s in at.body if not (isinstance(s, ast.Expr) and isinstance(s.value, ast.Constant))), None)
-    okd = len(assigns) == 1 and assigns[0] is first_stmt and isinstance(assigns[0].value, ast.Call) and ast.unparse(assigns[0].value.func) in ("copy.deepcopy", "deepcopy") and ast.unparse(assigns[0].value.args[0]) == "module"
-    report.add("R4-transforms", f"{TU}::apply_transform::deepcopy", okd, "the working module is obtained once, first thing, by copy.deepcopy(module) (parameters go through the instance hook)", [ast.unparse(a) for a in assigns], "module = copy.deepcopy(module)")
-    tn = mod.need("torch_nn_modules_to_user_modules")
-    src = ast.unparse(tn)
-    okg = "__getstate__()" in src and "__setstate__(" in src and "deepcopy" not in src and "Parameter(" not in src
-    report.add("R4-transforms", f"{TU}::torch_nn_modules_to_user_modules", okg, "re-created modules receive the original state object (same parameter objects), no parameter re-construction", "getstate/setstate" if okg else "other", "__getstate__/__setstate__", nontrivial=False)
+    # ---- R4 transforms: the working module of every library transform is obtained through copy.deepcopy
+    # (so parameters pass through the instance hook); decided by abstract execution, see C17-R1
+    from .c17 import mkmodule
+
+    it_t = Interp(repo)
+    at = it_t.get_global(TU, "apply_transform")
+    m = mkmodule("m")
+    try:
+        it_t.events = []
+        res = it_t.call_function(at, [m, O("backend")], {})
+        dc = [e for e in it_t.events if e.kind == "call" and e["callee"] == "copy.deepcopy"]
+        okd = isinstance(res, Obj) and res is not m and len(dc) == 1 and dc[0]["args"][0] is m
+        report.add("R4-transforms", f"{TU}::apply_transform::deepcopy", okd, "the transformed module is a copy.deepcopy of the argument (parameters are copied through their instance hook, never re-created)", f"deepcopy calls: {len(dc)}", "module = copy.deepcopy(module)")
+    except Unsupported as ex:
+        report.add("R4-transforms", f"{TU}::apply_transform::deepcopy", None, f"outside fragment: {ex}")
     report.floor("producers analysed", 3, 3)
